@@ -74,6 +74,13 @@ add("C08", "exploration",
     "Oracle = /verif/ref/refec (big.Int). Raw limbs and tables are reached through lib/secp256k1/export_verif.go (build tag verif). The 10x26 magnitude contract is taken as limbs <= m*(2^26-1).",
     "DESIGN.md §3 C08")
 
+add("C17", "exploration",
+    "invariant recomputation at quiescent points: the client's balance index, wired as client/wallet/onoff.go does, is compared with the projection of the reference UTXO set for every address after every block delivery / reorganisation step / index (re)build",
+    "Held on the histories observed: block histories with connects, disconnects and reorganisations paying to and spending from a small pool of P2PKH, P2SH, P2WPKH, P2WSH (and receive-only P2TR) addresses plus non-indexed scripts; addresses with 0/1/few/many outputs with UseMapCnt=4 (list->map switch), "
+    "several outputs of one transaction to one address, values at MinValue-1/MinValue/MinValue+1, index built from empty and from populated sets, Disable/re-enable in between; GetAllUnspent (set incl. height and coinbase flag, and sum) and the Browse (count,value) totals equal the projection.",
+    "The projection comes from the reference UTXO set, which the same run ties to the node's UTXO dump after every delivery. Address-hash collisions (64-bit siphash) are not exercised.",
+    "DESIGN.md §3 C17")
+
 NOT_BUILT = {}
 
 def main():
